@@ -13,7 +13,7 @@ namespace Ymq.Squfof
 open Ymq.Arith (sqLoop squfofIsqrt)
 
 /-- the hypothesis on the f64 seed `(m as f64).sqrt() as u64`: within 1 of the floor square root
-(the values observed are `⌊√m⌋` and `⌊√m⌋ + 1`; the lower neighbour is admitted too). -/
+(the values observed are `⌊√m⌋` and `⌊√m⌋ + 1`; the lower neighbour is allowed as well). -/
 def SeedOK (seed : Nat → Nat) : Prop :=
   ∀ m, 4 ≤ m → m < W → Nat.sqrt m ≤ seed m + 1 ∧ seed m ≤ Nat.sqrt m + 1
 
